@@ -208,17 +208,17 @@ def acceptance_sweep(run, tsc):
                         return
 
 
-def lattice_particles(rng, n1d, npart, coord, box, N):
-    """Particles on a 1/8-cell lattice within 2 cells of stripe boundaries (exactly representable)."""
+def lattice_particles(rng, n1d, npart, coord, box, N, sub=8):
+    """Particles on a 1/sub-cell lattice within 2 cells of stripe boundaries (exactly representable)."""
     h = box / n1d
-    bnd_cells = np.round(np.arange(npart + 1) * n1d / npart * 8) / 8  # keep every position on the exact 1/8-cell lattice
-    c = rng.choice(bnd_cells, N) + rng.integers(-16, 17, N) / 8.0
+    bnd_cells = np.round(np.arange(npart + 1) * n1d / npart * sub) / sub  # keep every position on the exact lattice
+    c = rng.choice(bnd_cells, N) + rng.integers(-2 * sub, 2 * sub + 1, N) / float(sub)
     x = np.mod(c, n1d) * h
     pos = np.empty((N, 3), dtype=np.float64)
     pos[:, coord] = x
     for ax in range(3):
         if ax != coord:
-            pos[:, ax] = rng.integers(0, n1d * 8, N) / 8.0 * h
+            pos[:, ax] = rng.integers(0, n1d * sub, N) / float(sub) * h
     return pos
 
 
@@ -289,6 +289,39 @@ def stress(run, tsc):
                 if not np.array_equal(out, ref):
                     run.violation('compiled-parallel-differs-from-serial', dict(n1d=n1d, nthread=1, npartition=npart, rep=r, cells_differing=int((out != ref).sum()), mass_parallel=float(out.sum()), mass_serial=float(ref.sum())))
                     break
+    # the other documented ways of calling it: grid given as an int or a shape tuple (allocated by the function), nthread=-1 (all
+    # threads), wrap=True with positions up to one box outside (lattice-preserving), verbose=True; accumulation onto a non-zero grid
+    import contextlib
+    import io
+
+    for n1d, nthread in confs[:3] + [(32, -1), (64, -1)]:
+        box = float(n1d)
+        # half-cell lattice: every kernel weight is a multiple of 2^-9 and every cell sum stays below 2^15, exact in the float32 grid the function allocates
+        pos = lattice_particles(rng, n1d, 4, 0, box, min(N // 2, 40 * n1d**3), sub=2)
+        w = rng.integers(1, 4, len(pos)).astype(np.float64)
+        shifted = pos + rng.integers(-1, 2, pos.shape) * box  # whole boxes: the wrapped value is the original, exactly
+        with warnings.catch_warnings(), contextlib.redirect_stdout(io.StringIO()):
+            warnings.simplefilter('ignore')
+            ref = tsc.tsc_parallel(pos.copy(), np.zeros((n1d, n1d, n1d), dtype=np.float32), box, weights=w, nthread=1, wrap=False)
+            forms = {
+                'int-grid': lambda: tsc.tsc_parallel(pos.copy(), n1d, box, weights=w, nthread=nthread, wrap=False),
+                'numpy-int-grid': lambda: tsc.tsc_parallel(pos.copy(), np.int64(n1d), box, weights=w, nthread=nthread, wrap=False),
+                'tuple-grid': lambda: tsc.tsc_parallel(pos.copy(), (n1d, n1d, n1d), box, weights=w, nthread=nthread, wrap=False),
+                'wrap-outside-box': lambda: tsc.tsc_parallel(shifted.copy(), (n1d, n1d, n1d), box, weights=w, nthread=nthread, wrap=True),
+                'verbose': lambda: tsc.tsc_parallel(pos.copy(), np.zeros((n1d, n1d, n1d), dtype=np.float32), box, weights=w, nthread=nthread, wrap=True, verbose=True),
+                'accumulate': lambda: tsc.tsc_parallel(pos.copy(), np.full((n1d, n1d, n1d), 2.0, dtype=np.float32), box, weights=w, nthread=nthread, wrap=False) - np.float32(2.0),
+            }
+            for label, f in forms.items():
+                run.ev()
+                run.count('stress_runs')
+                run.nt(('call-form', label, n1d, nthread))
+                try:
+                    out = f()
+                except Exception as e:
+                    run.violation('documented-call-form-fails', dict(form=label, n1d=n1d, nthread=nthread, error=f'{type(e).__name__}: {e}'[:200]))
+                    continue
+                if out.shape != ref.shape or not np.array_equal(out, ref):
+                    run.violation('compiled-parallel-differs-from-serial', dict(form=label, n1d=n1d, nthread=nthread, cells_differing=int((np.asarray(out) != ref).sum()) if out.shape == ref.shape else None, mass_parallel=float(np.sum(out)), mass_serial=float(ref.sum())))
     run.sample(dict(stress_example=dict(n1d=confs[0][0], nthread=confs[0][1], particles=N, lattice='1/8 cell, within 2 cells of stripe boundaries', grid='float64', compare='bitwise')))
 
 
